@@ -368,4 +368,1355 @@ theorem segRun_key {cfg : Cfg} {sem : Sem} : ∀ (blocks : List (List Op)) (p p'
           · exact Or.inl (Or.inr ⟨o, ho, h1⟩)
           · exact Or.inr ⟨o, ho, h1⟩
 
+/-! ### B2: `merge`, per key -/
+
+/-- what `mergeKey` does to the full store for its key -/
+inductive MAct
+  | keep                 -- the store is left as it is
+  | put (v : Bytes)      -- `setKV`
+  | putNew (v : Bytes)   -- `setNewKV`
+
+def MAct.apply (s : Store) (k : Bytes) : MAct → Store
+  | .keep => s
+  | .put v => setKV s k v
+  | .putNew v => setNewKV s k v
+
+/-- `mergeKey` as a function of the full store's value `cur` of the key and the partial store's value `v`
+(`mergeKey_eq`: this is exactly what `mergeKey` computes) -/
+def mergeGen (cfg : Cfg) (cur : Option Bytes) (v : Bytes) : Option (Except SErr MAct) :=
+  match cfg.policy with
+  | .set => some (.ok (.put v))
+  | .setIfNotExists => some (.ok (if cur.isSome then .keep else .putNew v))
+  | .append =>
+    match cur with
+    | some prev =>
+      if cfg.appendLimit > 0 ∧ prev.length + v.length ≥ cfg.appendLimit then some (.error .appendLimit)
+      else some (.ok (.put (prev ++ v)))
+    | none => some (.ok (.putNew v))
+  | .add =>
+    match cfg.vt with
+    | .int64 => some (.ok (.put (renderInt (wrap64 (foundOrZeroInt64 cur + foundOrZeroInt64 (some v))))))
+    | .float64 => some (.ok (.put (renderF64 (foundOrZeroF64 cur + foundOrZeroF64 (some v)))))
+    | .bigint =>
+      match foundOrZeroBigInt cur, foundOrZeroBigInt (some v) with
+      | some a, some b => some (.ok (.put (renderInt (a + b))))
+      | _, _ => none
+    | .bigdecimal =>
+      match foundOrZeroDec cur, foundOrZeroDec (some v) with
+      | some a, some b => some (.ok (.put (a.add b).render))
+      | _, _ => none
+    | .bytes => some (.error .badValue)
+  | .setSum =>
+    if isPrefix pfxSet v then
+      match cfg.vt with
+      | .float64 =>
+        match parseF64 (v.drop 4) with
+        | some f => some (.ok (.put (pfxSum ++ renderF64 f)))
+        | none => none
+      | .bytes => some (.ok .keep)
+      | _ => some (.ok (.put (pfxSum ++ v.drop 4)))
+    else
+      match cfg.vt with
+      | .int64 =>
+        let a := match cur with | none => 0 | some c => (parseInt64 (c.drop 4)).getD 0
+        let b := (parseInt64 (v.drop 4)).getD 0
+        some (.ok (.put (pfxSum ++ renderInt (wrap64 (a + b)))))
+      | .float64 =>
+        let a := match cur with | none => 0.0 | some c => (parseF64 (c.drop 4)).getD 0.0
+        let b := (parseF64 (v.drop 4)).getD 0.0
+        some (.ok (.put (pfxSum ++ renderF64 (a + b))))
+      | .bigint =>
+        match (match cur with | none => some 0 | some c => parseInt (c.drop 4)), parseInt (v.drop 4) with
+        | some a, some b => some (.ok (.put (pfxSum ++ renderInt (a + b))))
+        | _, _ => none
+      | .bigdecimal =>
+        match foundOrZeroPrefixedDec cur, foundOrZeroPrefixedDec (some v) with
+        | some a, some b => some (.ok (.put (pfxSum ++ (a.add b).render)))
+        | _, _ => none
+      | .bytes => some (.ok .keep)
+  | .max | .min =>
+    let isMax := cfg.policy = .max
+    match cfg.vt with
+    | .int64 =>
+      let v1 := foundOrZeroInt64 (some v)
+      match cur with
+      | none => some (.ok (.putNew (renderInt v1)))
+      | some c =>
+        let v0 := foundOrZeroInt64 (some c)
+        let r := if isMax then (if v0 ≥ v1 then v0 else v1) else (if v0 ≤ v1 then v0 else v1)
+        some (.ok (.put (renderInt r)))
+    | .float64 =>
+      let v1 := foundOrZeroF64 (some v)
+      match cur with
+      | none => some (.ok (.putNew (renderF64 v1)))
+      | some c =>
+        let v0 := foundOrZeroF64 (some c)
+        let r := if isMax then (if v0 < v1 then v1 else v0) else (if v0 < v1 then v0 else v1)
+        some (.ok (.put (renderF64 r)))
+    | .bigint =>
+      match foundOrZeroBigInt (some v) with
+      | none => none
+      | some v1 =>
+        match cur with
+        | none => some (.ok (.putNew (renderInt v1)))
+        | some c =>
+          match foundOrZeroBigInt (some c) with
+          | none => none
+          | some v0 =>
+            let r := if isMax then (if v0 ≤ v1 then v1 else v0) else (if v0 ≤ v1 then v0 else v1)
+            some (.ok (.put (renderInt r)))
+    | .bigdecimal =>
+      match foundOrZeroDec (some v) with
+      | none => none
+      | some v1 =>
+        match cur with
+        | none => some (.ok (.putNew v1.render))
+        | some c =>
+          match foundOrZeroDec (some c) with
+          | none => none
+          | some v0 =>
+            let le := v0.cmp v1 != .gt
+            let r := if isMax then (if le then v1 else v0) else (if le then v0 else v1)
+            some (.ok (.put r.render))
+    | .bytes => some (.error .badValue)
+  | .unset => some (.error .badValue)
+
+/-- lift of `MAct.apply` over the two failure layers (panic, error) -/
+def liftAct (s : Store) (k : Bytes) : Option (Except SErr MAct) → Option (Except SErr Store)
+  | none => none
+  | some (.error e) => some (.error e)
+  | some (.ok a) => some (.ok (a.apply s k))
+
+/-- `mergeKey` only looks at the full store's value of its key, and only writes that key -/
+theorem mergeKey_eq (cfg : Cfg) (s : Store) (k v : Bytes) :
+    mergeKey cfg s k v = liftAct s k (mergeGen cfg (look s.kv k) v) := by
+  unfold mergeKey mergeGen
+  dsimp only
+  cases hl : look s.kv k <;> cases cfg.policy <;> cases cfg.vt <;>
+    simp only [Option.isSome_none, Option.isSome_some, Bool.false_eq_true, ↓reduceIte] <;>
+    (repeat' split) <;> first | rfl | (exfalso; omega) | (simp_all [liftAct, MAct.apply]; done) |
+      (simp_all [liftAct, MAct.apply]; exfalso; omega)
+
+/-- the value of the key after `mergeKey` (`none`: `Merge` errors or panics) -/
+def mergeVal (cfg : Cfg) (cur : Option Bytes) (v : Bytes) : Option (Option Bytes) :=
+  match mergeGen cfg cur v with
+  | some (.ok .keep) => some cur
+  | some (.ok (.put x)) => some (some x)
+  | some (.ok (.putNew x)) => some (some x)
+  | _ => none
+
+/-- the full store's value of a key after `Merge`: `cur` its value after the partial's prefix deletions,
+`pv` the partial store's value of the key -/
+def mergeLook (cfg : Cfg) (cur : Option Bytes) (pv : Option Bytes) : Option (Option Bytes) :=
+  match pv with
+  | none => some cur
+  | some v => mergeVal cfg cur v
+
+theorem look_setKV (s : Store) (k v k' : Bytes) :
+    look (setKV s k v).kv k' = if k = k' then some v else look s.kv k' := look_ins _ _ _ _
+
+theorem look_setNewKV (s : Store) (k v k' : Bytes) :
+    look (setNewKV s k v).kv k' = if k = k' then some v else look s.kv k' := look_ins _ _ _ _
+
+theorem mergeKey_look {cfg : Cfg} {s s' : Store} {k v : Bytes} (hm : mergeKey cfg s k v = some (.ok s')) :
+    mergeVal cfg (look s.kv k) v = some (look s'.kv k) ∧ ∀ k', k ≠ k' → look s'.kv k' = look s.kv k' := by
+  rw [mergeKey_eq] at hm
+  unfold mergeVal
+  cases hg : mergeGen cfg (look s.kv k) v with
+  | none => rw [hg] at hm; simp [liftAct] at hm
+  | some r =>
+    cases r with
+    | error e => rw [hg] at hm; simp [liftAct] at hm
+    | ok a =>
+      rw [hg] at hm
+      simp only [liftAct, Option.some.injEq, Except.ok.injEq] at hm
+      subst hm
+      cases a with
+      | keep => exact ⟨rfl, fun _ _ => rfl⟩
+      | put x =>
+        refine ⟨by simp only [MAct.apply, look_setKV, ↓reduceIte], fun k' hk => ?_⟩
+        simp only [MAct.apply, look_setKV, hk, ↓reduceIte]
+      | putNew x =>
+        refine ⟨by simp only [MAct.apply, look_setNewKV, ↓reduceIte], fun k' hk => ?_⟩
+        simp only [MAct.apply, look_setNewKV, hk, ↓reduceIte]
+
+/-- the loop of `Merge` over the partial store's content -/
+def mergeFold (cfg : Cfg) (l : KV) (acc : Option (Except SErr Store)) : Option (Except SErr Store) :=
+  l.foldl (fun (acc : Option (Except SErr Store)) kv =>
+    match acc with
+    | some (.ok s) => mergeKey cfg s kv.1 kv.2
+    | other => other) acc
+
+theorem mergeFold_stuck (cfg : Cfg) (l : KV) (acc : Option (Except SErr Store))
+    (h : ∀ s, acc ≠ some (.ok s)) : mergeFold cfg l acc = acc := by
+  induction l with
+  | nil => rfl
+  | cons p rest ih =>
+    unfold mergeFold at ih ⊢
+    simp only [List.foldl_cons]
+    match acc, h with
+    | none, _ => exact ih
+    | some (.error e), _ => exact ih
+    | some (.ok s), h => exact absurd rfl (h s)
+
+theorem mergeFold_key {cfg : Cfg} : ∀ (l : KV) (s s' : Store), NodupKeys l →
+    mergeFold cfg l (some (.ok s)) = some (.ok s') →
+    ∀ k, mergeLook cfg (look s.kv k) (look l k) = some (look s'.kv k) := by
+  intro l
+  induction l with
+  | nil =>
+    intro s s' _ hf k
+    simp only [mergeFold, List.foldl_nil, Option.some.injEq, Except.ok.injEq] at hf
+    subst hf; rfl
+  | cons p rest ih =>
+    intro s s' hn hf k
+    obtain ⟨k1, v1⟩ := p
+    unfold NodupKeys at hn
+    simp only [List.map_cons, List.nodup_cons] at hn
+    have hf' : mergeFold cfg rest (mergeKey cfg s k1 v1) = some (.ok s') := hf
+    cases hmk : mergeKey cfg s k1 v1 with
+    | none =>
+      rw [hmk, mergeFold_stuck cfg rest none (by intro s; simp)] at hf'
+      simp at hf'
+    | some r =>
+      cases r with
+      | error e =>
+        rw [hmk, mergeFold_stuck cfg rest _ (by intro s; simp)] at hf'
+        simp at hf'
+      | ok s1 =>
+        rw [hmk] at hf'
+        obtain ⟨m1, m2⟩ := mergeKey_look hmk
+        have := ih s1 s' hn.2 hf' k
+        have hlk : look ((k1, v1) :: rest) k = if k1 = k then some v1 else look rest k := rfl
+        rw [hlk]
+        by_cases hk : k1 = k
+        · subst hk
+          simp only [↓reduceIte]
+          rw [look_none_of_not_mem hn.1] at this
+          simp only [mergeLook, Option.some.injEq] at this
+          simp only [mergeLook]
+          rw [m1, this]
+        · simp only [hk, ↓reduceIte]
+          rw [m2 k hk] at this
+          exact this
+
+/-- a log of `deletePrefix` operations, per key -/
+theorem foldOpt_deletes {cfg : Cfg} {sem : Sem} (k : Bytes) : ∀ (ops : List Op) (x : Option Bytes),
+    (∀ o ∈ ops, o.kind = .deletePrefix) →
+    foldOpt (keyEffect cfg sem k) x ops = some (if ops.any (fun o => isPrefix o.key k) then none else x) := by
+  intro ops
+  induction ops with
+  | nil => intro x _; rfl
+  | cons o rest ih =>
+    intro x h
+    have ho := h o List.mem_cons_self
+    simp only [foldOpt, keyEffect, ho]
+    rw [ih _ (fun o' ho' => h o' (List.mem_cons_of_mem _ ho'))]
+    simp only [List.any_cons]
+    by_cases hp : isPrefix o.key k = true
+    · simp [hp]
+    · simp [hp]
+
+theorem any_perm {α : Type} {l1 l2 : List α} (h : l1.Perm l2) (p : α → Bool) : l1.any p = l2.any p := by
+  rw [Bool.eq_iff_iff, List.any_eq_true, List.any_eq_true]
+  constructor
+  · rintro ⟨x, hx, hp⟩; exact ⟨x, h.mem_iff.1 hx, hp⟩
+  · rintro ⟨x, hx, hp⟩; exact ⟨x, h.mem_iff.2 hx, hp⟩
+
+/-- a full store at rest between requests: consistent, no deltas, empty log -/
+structure Rest (s : Store) : Prop where
+  clean : Clean s
+  ops   : s.ops = []
+
+theorem Rest.empty : Rest Store.empty :=
+  ⟨⟨by simp [NodupKeys, Store.empty], rfl, by simp [Store.empty, kvSize]⟩, rfl⟩
+
+/-- **B2**: `Merge`, per key -/
+theorem merge_key {cfg : Cfg} {sem : Sem} {g g' : Store} {p : Partial} (hg : Rest g)
+    (hp : NodupKeys p.store.kv) (hm : merge cfg sem g p = some (.ok g')) :
+    Rest g' ∧ ∀ k, mergeLook cfg
+        (if p.deletedPrefixes.any (fun pfx => isPrefix pfx k) then none else look g.kv k)
+        (look p.store.kv k) = some (look g'.kv k) := by
+  unfold merge at hm
+  dsimp only at hm
+  let mk : Bytes → Op := fun pfx => ⟨.deletePrefix, p.store.lastOrd, pfx, []⟩
+  have hfold : p.deletedPrefixes.foldl (fun s pfx => record s ⟨.deletePrefix, p.store.lastOrd, pfx, []⟩) g =
+      (p.deletedPrefixes.map mk).foldl record g := by
+    rw [List.foldl_map]
+  rw [hfold] at hm
+  cases hf : flush cfg sem ((p.deletedPrefixes.map mk).foldl record g) with
+  | error e => rw [hf] at hm; simp at hm
+  | ok s0 =>
+    rw [hf] at hm
+    dsimp only at hm
+    have hb : execBlock cfg sem g (p.deletedPrefixes.map mk) = .ok s0 := hf
+    obtain ⟨b, i1, _⟩ := execBlock_inv hg.clean hb
+    have hk0 := execBlock_key hg.clean hb
+    have hfm : ∀ r, mergeFold cfg p.store.kv (some (.ok s0)) = r →
+        (match r with | some (.ok s) => some (.ok (reset s)) | other => other) = some (.ok g') →
+        ∃ s1, r = some (.ok s1) ∧ g' = reset s1 := by
+      intro r _ hr
+      match r, hr with
+      | some (.ok s1), hr =>
+        simp only [Option.some.injEq, Except.ok.injEq] at hr
+        exact ⟨s1, rfl, hr.symm⟩
+      | some (.error e), hr => simp at hr
+      | none, hr => simp at hr
+    obtain ⟨s1, hs1, hg'⟩ := hfm _ rfl hm
+    have hS1 : SInv s1 := mergeFold_inv (cfg := cfg) p.store.kv (some (.ok s0)) s1
+      (by intro t ht; injection ht with ht; injection ht with ht; subst ht; exact i1.sinv) hs1
+    subst hg'
+    refine ⟨⟨hS1.reset, rfl⟩, fun k => ?_⟩
+    have h0 := hk0 k
+    rw [hg.ops, List.nil_append,
+      foldOpt_deletes k _ _ (by
+        intro o ho
+        obtain ⟨x, _, hx⟩ := List.mem_map.1 ((sortOps_perm _).mem_iff.1 ho)
+        rw [← hx]),
+      any_perm (sortOps_perm _), List.any_map] at h0
+    simp only [Option.some.injEq] at h0
+    have := mergeFold_key p.store.kv s0 s1 hp hs1 k
+    rw [← h0] at this
+    exact this
+
+/-! ### the squash of a list of segments, store level and per key -/
+
+/-- save + load of a partial store: content and deleted prefixes survive, the block state does not
+(`sl P` of Driver/StoreProto.lean) -/
+def saveLoadP (p : Partial) : Partial := ⟨saveLoad p.store, p.deletedPrefixes⟩
+
+/-- the squash: per segment a fresh partial store executes the segment's blocks, is saved and loaded,
+and merged into the full store, in segment order (`none`: an error or panic anywhere) -/
+def squashRun (cfg : Cfg) (sem : Sem) : Store → List (List (List Op)) → Option Store
+  | g, [] => some g
+  | g, seg :: rest =>
+    match segRun cfg sem Partial.empty seg with
+    | .error _ => none
+    | .ok p =>
+      match merge cfg sem g (saveLoadP p) with
+      | some (.ok g') => squashRun cfg sem g' rest
+      | _ => none
+
+/-- a `deletePrefix` of the log matches the key -/
+def delHit (k : Bytes) (ops : List Op) : Bool :=
+  ops.any (fun o => decide (o.kind = .deletePrefix) && isPrefix o.key k)
+
+/-- the squash as seen by one key: per segment (given as its operations in execution order) the
+partial value is the fold from "absent", then `mergeLook` after the segment's prefix deletions -/
+def squashKey (cfg : Cfg) (sem : Sem) (k : Bytes) : Option Bytes → List (List Op) → Option (Option Bytes)
+  | x, [] => some x
+  | x, seg :: rest =>
+    match foldOpt (keyEffect cfg sem k) none seg with
+    | none => none
+    | some pv =>
+      match mergeLook cfg (if delHit k seg then none else x) pv with
+      | none => none
+      | some x' => squashKey cfg sem k x' rest
+
+theorem SInv.empty : SInv Store.empty := ⟨Rest.empty.clean.nodup, Rest.empty.clean.size⟩
+
+theorem squashRun_key {cfg : Cfg} {sem : Sem} : ∀ (segs : List (List (List Op))) (g g' : Store),
+    Rest g → squashRun cfg sem g segs = some g' →
+    Rest g' ∧ ∀ k, squashKey cfg sem k (look g.kv k) (segs.map (·.flatMap sortOps)) = some (look g'.kv k) := by
+  intro segs
+  induction segs with
+  | nil => intro g g' h hr; simp only [squashRun, Option.some.injEq] at hr; subst hr; exact ⟨h, fun _ => rfl⟩
+  | cons seg rest ih =>
+    intro g g' h hr
+    unfold squashRun at hr
+    cases hs : segRun cfg sem Partial.empty seg with
+    | error e => rw [hs] at hr; simp at hr
+    | ok p =>
+      rw [hs] at hr
+      dsimp only at hr
+      obtain ⟨j1, j2, j3⟩ := segRun_key seg Partial.empty p SInv.empty hs
+      cases hmg : merge cfg sem g (saveLoadP p) with
+      | none => rw [hmg] at hr; simp at hr
+      | some r =>
+        cases r with
+        | error e => rw [hmg] at hr; simp at hr
+        | ok g1 =>
+          rw [hmg] at hr
+          dsimp only at hr
+          obtain ⟨m1, m2⟩ := merge_key (p := saveLoadP p) h j1.nodup hmg
+          obtain ⟨r1, r2⟩ := ih g1 g' m1 hr
+          refine ⟨r1, fun k => ?_⟩
+          simp only [List.map_cons, squashKey]
+          have e1 : foldOpt (keyEffect cfg sem k) none (seg.flatMap sortOps) = some (look p.store.kv k) := j2 k
+          rw [e1]
+          dsimp only
+          have e2 : (saveLoadP p).deletedPrefixes.any (fun pfx => isPrefix pfx k) =
+              delHit k (seg.flatMap sortOps) := by
+            unfold delHit
+            rw [Bool.eq_iff_iff, List.any_eq_true, List.any_eq_true]
+            constructor
+            · rintro ⟨pfx, hpfx, hpre⟩
+              rcases (j3 pfx).1 hpfx with hc | ⟨o, ho, hk, hkey⟩
+              · simp [Partial.empty] at hc
+              · exact ⟨o, ho, by simp [hk, hkey, hpre]⟩
+            · rintro ⟨o, ho, hh⟩
+              simp only [Bool.and_eq_true, decide_eq_true_eq] at hh
+              exact ⟨o.key, (j3 o.key).2 (Or.inr ⟨o, ho, hh.1, rfl⟩), hh.2⟩
+          have e3 := m2 k
+          rw [e2] at e3
+          have e3' : mergeLook cfg (if delHit k (seg.flatMap sortOps) then none else look g.kv k)
+              (look p.store.kv k) = some (look g1.kv k) := e3
+          rw [e3']
+          exact r2 k
+
+theorem flatMap_flatten {α β : Type} (f : α → List β) (L : List (List α)) :
+    L.flatten.flatMap f = (L.map (·.flatMap f)).flatten := by
+  induction L with
+  | nil => rfl
+  | cons l rest ih => simp only [List.flatten_cons, List.flatMap_append, List.map_cons, ih]
+
+/-- **B1 + B2 end to end, policy independent**: sequential and squashed execution from the empty store,
+as seen by one key, are the two per-key folds -/
+theorem seq_squash_key {cfg : Cfg} {sem : Sem} {segs : List (List (List Op))} {F G : Store}
+    (hF : seqRun cfg sem Store.empty segs.flatten = .ok F)
+    (hG : squashRun cfg sem Store.empty segs = some G) (k : Bytes) :
+    foldOpt (keyEffect cfg sem k) none (segs.map (·.flatMap sortOps)).flatten = some (look F.kv k) ∧
+    squashKey cfg sem k none (segs.map (·.flatMap sortOps)) = some (look G.kv k) := by
+  constructor
+  · have := (seqRun_key segs.flatten Store.empty F SInv.empty hF).2 k
+    rw [flatMap_flatten] at this
+    exact this
+  · exact (squashRun_key segs Store.empty G Rest.empty hG).2 k
+
+/-! ### refinement of a per-key algebra by the byte-level per-key functions -/
+
+/-- a relation between stored bytes and typed values, lifted to "maybe absent" -/
+def ORel {X : Type} (R : Bytes → X → Prop) : Option Bytes → Option X → Prop
+  | none, none => True
+  | some b, some x => R b x
+  | _, _ => False
+
+theorem keyEffect_other {cfg : Cfg} {sem : Sem} {k : Bytes} {cur : Option Bytes} {op : Op}
+    (hk : op.kind ≠ .deletePrefix) (hkey : op.key ≠ k) : keyEffect cfg sem k cur op = some cur := by
+  unfold keyEffect
+  cases h : op.kind <;> simp only [viaSem, hkey, ↓reduceIte] <;> exact absurd h hk
+
+theorem keyEffect_delete {cfg : Cfg} {sem : Sem} {k : Bytes} {cur : Option Bytes} {op : Op}
+    (hk : op.kind = .deletePrefix) :
+    keyEffect cfg sem k cur op = some (if isPrefix op.key k then none else cur) := by
+  unfold keyEffect; simp only [hk]
+
+/-- what a policy provides so that the byte-level model refines the algebra `A`:
+the admitted (non-delete) operations, their typed reading `wOf`, the representation relations of the
+full side (`RF`) and the partial side (`RP`), and the three commutation laws: one write on a full store,
+one write on a partial store, the merge of one key.  Each law only speaks about *successful* steps
+(an error ends the run, and the theorem is about runs that succeed). -/
+structure Refine (cfg : Cfg) (sem : Sem) {F P W : Type} (A : KeyAlg F P W) where
+  okOp  : Op → Prop
+  wOf   : Op → W
+  RF    : Bytes → F → Prop
+  RP    : Bytes → P → Prop
+  notDel : ∀ op, okOp op → op.kind ≠ .deletePrefix
+  stepF : ∀ (op : Op) (x x' : Option Bytes) (fx : Option F), okOp op → ORel RF x fx →
+    keyEffect cfg sem op.key x op = some x' → ORel RF x' (A.updF (wOf op) fx)
+  stepP : ∀ (op : Op) (y y' : Option Bytes) (py : Option P), okOp op → ORel RP y py →
+    keyEffect cfg sem op.key y op = some y' → ORel RP y' (A.updP (wOf op) py)
+  mrg   : ∀ (x x' : Option Bytes) (v : Bytes) (fx : Option F) (pv : P), ORel RF x fx → RP v pv →
+    mergeVal cfg x v = some x' → ORel RF x' (A.mrg fx (some pv))
+
+namespace Refine
+variable {cfg : Cfg} {sem : Sem} {F P W : Type} {A : KeyAlg F P W} (R : Refine cfg sem A)
+
+/-- admitted logs: `deletePrefix` and the policy's own operations -/
+def Adm (ops : List Op) : Prop := ∀ op ∈ ops, op.kind = .deletePrefix ∨ R.okOp op
+
+/-- the event of an operation for key `k` (if it touches `k` at all) -/
+def evAt (k : Bytes) (op : Op) : Option (Ev W) :=
+  if op.kind = .deletePrefix then (if isPrefix op.key k then some .del else none)
+  else if op.key = k then some (.write (R.wOf op)) else none
+
+/-- the events of key `k` in a log -/
+def evs (k : Bytes) (ops : List Op) : List (Ev W) := ops.filterMap (R.evAt k)
+
+theorem evs_cons (k : Bytes) (op : Op) (rest : List Op) :
+    R.evs k (op :: rest) = (match R.evAt k op with | some e => [e] | none => []) ++ R.evs k rest := by
+  unfold evs
+  rw [List.filterMap_cons]
+  cases R.evAt k op <;> rfl
+
+theorem evs_flatten (k : Bytes) (L : List (List Op)) : R.evs k L.flatten = (L.map (R.evs k)).flatten := by
+  induction L with
+  | nil => rfl
+  | cons l rest ih =>
+    simp only [List.flatten_cons, List.map_cons, ← ih]
+    unfold evs
+    rw [List.filterMap_append]
+
+theorem Adm.tail {R : Refine cfg sem A} {op : Op} {rest : List Op} (h : R.Adm (op :: rest)) : R.Adm rest :=
+  fun o ho => h o (List.mem_cons_of_mem _ ho)
+
+/-- full side: the byte-level fold follows `runF` -/
+theorem runF_fold (k : Bytes) : ∀ (ops : List Op) (x x' : Option Bytes) (fx : Option F),
+    R.Adm ops → ORel R.RF x fx → foldOpt (keyEffect cfg sem k) x ops = some x' →
+    ORel R.RF x' (A.runF (R.evs k ops) fx) := by
+  intro ops
+  induction ops with
+  | nil =>
+    intro x x' fx _ hr hf
+    simp only [foldOpt, Option.some.injEq] at hf; subst hf; exact hr
+  | cons op rest ih =>
+    intro x x' fx ha hr hf
+    unfold foldOpt at hf
+    rw [R.evs_cons]
+    rcases ha op List.mem_cons_self with hd | hok
+    · rw [keyEffect_delete hd] at hf
+      dsimp only at hf
+      unfold evAt
+      simp only [hd, ↓reduceIte]
+      by_cases hp : isPrefix op.key k = true
+      · simp only [hp, ↓reduceIte] at hf ⊢
+        exact ih none x' none ha.tail trivial hf
+      · simp only [hp, Bool.false_eq_true, ↓reduceIte] at hf ⊢
+        exact ih x x' fx ha.tail hr hf
+    · have hnd := R.notDel op hok
+      unfold evAt
+      simp only [hnd, ↓reduceIte]
+      by_cases hk : op.key = k
+      · subst hk
+        simp only [↓reduceIte]
+        cases hke : keyEffect cfg sem op.key x op with
+        | none => rw [hke] at hf; simp at hf
+        | some x1 =>
+          rw [hke] at hf
+          dsimp only at hf
+          exact ih x1 x' _ ha.tail (R.stepF op x x1 fx hok hr hke) hf
+      · rw [keyEffect_other hnd hk] at hf
+        simp only [hk, ↓reduceIte]
+        exact ih x x' fx ha.tail hr hf
+
+/-- partial side: the byte-level fold follows `runP`, and the remembered prefixes follow its flag -/
+theorem runP_fold (k : Bytes) : ∀ (ops : List Op) (y y' : Option Bytes) (b : Bool) (py : Option P),
+    R.Adm ops → ORel R.RP y py → foldOpt (keyEffect cfg sem k) y ops = some y' →
+    ORel R.RP y' (A.runP (R.evs k ops) (b, py)).2 ∧ (A.runP (R.evs k ops) (b, py)).1 = (b || delHit k ops) := by
+  intro ops
+  induction ops with
+  | nil =>
+    intro y y' b py _ hr hf
+    simp only [foldOpt, Option.some.injEq] at hf; subst hf
+    exact ⟨hr, by simp [evs, KeyAlg.runP, delHit]⟩
+  | cons op rest ih =>
+    intro y y' b py ha hr hf
+    unfold foldOpt at hf
+    rw [R.evs_cons]
+    have hdh : delHit k (op :: rest) = ((decide (op.kind = .deletePrefix) && isPrefix op.key k) || delHit k rest) := by
+      simp [delHit]
+    rw [hdh]
+    rcases ha op List.mem_cons_self with hd | hok
+    · rw [keyEffect_delete hd] at hf
+      dsimp only at hf
+      unfold evAt
+      simp only [hd, ↓reduceIte, decide_true, Bool.true_and]
+      by_cases hp : isPrefix op.key k = true
+      · simp only [hp, ↓reduceIte] at hf ⊢
+        have := ih none y' true none ha.tail trivial hf
+        simpa [KeyAlg.runP, KeyAlg.stepP] using this
+      · simp only [hp, Bool.false_eq_true, ↓reduceIte] at hf ⊢
+        have := ih y y' b py ha.tail hr hf
+        simpa using this
+    · have hnd := R.notDel op hok
+      unfold evAt
+      simp only [hnd, ↓reduceIte, decide_false, Bool.false_and, Bool.false_or]
+      by_cases hk : op.key = k
+      · subst hk
+        simp only [↓reduceIte]
+        cases hke : keyEffect cfg sem op.key y op with
+        | none => rw [hke] at hf; simp at hf
+        | some y1 =>
+          rw [hke] at hf
+          dsimp only at hf
+          have := ih y1 y' b _ ha.tail (R.stepP op y y1 py hok hr hke) hf
+          simpa [KeyAlg.runP, KeyAlg.stepP] using this
+      · rw [keyEffect_other hnd hk] at hf
+        simp only [hk, ↓reduceIte]
+        have := ih y y' b py ha.tail hr hf
+        simpa using this
+
+/-- the byte-level squash follows the algebra's squash -/
+theorem squash_fold (k : Bytes) : ∀ (segs : List (List Op)) (x y : Option Bytes) (fx : Option F),
+    (∀ seg ∈ segs, R.Adm seg) → ORel R.RF x fx → squashKey cfg sem k x segs = some y →
+    ORel R.RF y (A.squash (segs.map (R.evs k)) fx) := by
+  intro segs
+  induction segs with
+  | nil =>
+    intro x y fx _ hr hs
+    simp only [squashKey, Option.some.injEq] at hs; subst hs; exact hr
+  | cons seg rest ih =>
+    intro x y fx ha hr hs
+    unfold squashKey at hs
+    cases hfo : foldOpt (keyEffect cfg sem k) none seg with
+    | none => rw [hfo] at hs; simp at hs
+    | some pv =>
+      rw [hfo] at hs
+      dsimp only at hs
+      obtain ⟨p1, p2⟩ := R.runP_fold k seg none pv false none (ha seg List.mem_cons_self) trivial hfo
+      simp only [Bool.false_or] at p2
+      cases hml : mergeLook cfg (if delHit k seg then none else x) pv with
+      | none => rw [hml] at hs; simp at hs
+      | some x1 =>
+        rw [hml] at hs
+        dsimp only at hs
+        have hsq : A.squash ((seg :: rest).map (R.evs k)) fx =
+            A.squash (rest.map (R.evs k)) (A.mrgD fx (A.runP (R.evs k seg) (false, none))) := by
+          simp [KeyAlg.squash]
+        rw [hsq]
+        apply ih x1 y _ (fun s hs' => ha s (List.mem_cons_of_mem _ hs')) _ hs
+        unfold KeyAlg.mrgD
+        rw [p2]
+        have hcur : ORel R.RF (if delHit k seg then none else x) (if delHit k seg = true then none else fx) := by
+          cases delHit k seg
+          · simpa using hr
+          · trivial
+        generalize (A.runP (R.evs k seg) (false, none)).2 = q at p1
+        cases pv with
+        | none =>
+          cases q with
+          | none =>
+            simp only [mergeLook, Option.some.injEq] at hml
+            rw [A.mrg_none, ← hml]; exact hcur
+          | some _ => exact absurd p1 (by simp [ORel])
+        | some v =>
+          cases q with
+          | none => exact absurd p1 (by simp [ORel])
+          | some pvv => exact R.mrg _ x1 v _ pvv hcur p1 hml
+
+/-- **Layer B, per key**: if the sequential fold and the squash of a cut both succeed, their results
+represent the same typed value -/
+theorem squash_eq_seq (k : Bytes) (segs : List (List Op)) (ha : ∀ seg ∈ segs, R.Adm seg)
+    {x y : Option Bytes} (hx : foldOpt (keyEffect cfg sem k) none segs.flatten = some x)
+    (hy : squashKey cfg sem k none segs = some y) :
+    ∃ f : Option F, ORel R.RF x f ∧ ORel R.RF y f := by
+  refine ⟨A.runF (R.evs k segs.flatten) none, ?_, ?_⟩
+  · apply R.runF_fold k segs.flatten none x none _ trivial hx
+    intro op hop
+    obtain ⟨seg, hseg, hop'⟩ := List.mem_flatten.1 hop
+    exact ha seg hseg op hop'
+  · rw [R.evs_flatten, ← A.squash_eq_seq]
+    exact R.squash_fold k segs none y none ha trivial hy
+
+/-- **Layer B, store level**: sequential execution of all blocks on one store and the squash of any cut
+into segments, both from the empty store, hold for every key representations of the same typed value -/
+theorem model_squash_eq_seq (segs : List (List (List Op)))
+    (ha : ∀ seg ∈ segs, ∀ calls ∈ seg, ∀ op ∈ calls, op.kind = .deletePrefix ∨ R.okOp op)
+    {F' G' : Store} (hF : seqRun cfg sem Store.empty segs.flatten = .ok F')
+    (hG : squashRun cfg sem Store.empty segs = some G') (k : Bytes) :
+    ∃ f : Option F, ORel R.RF (look F'.kv k) f ∧ ORel R.RF (look G'.kv k) f := by
+  obtain ⟨h1, h2⟩ := seq_squash_key hF hG k
+  apply R.squash_eq_seq k _ _ h1 h2
+  intro seg' hseg' op hop
+  obtain ⟨seg, hseg, rfl⟩ := List.mem_map.1 hseg'
+  obtain ⟨calls, hcalls, hop'⟩ := List.mem_flatMap.1 hop
+  exact ha seg hseg calls hcalls op ((sortOps_perm calls).mem_iff.1 hop')
+
+end Refine
+
+/-! ### B3: the byte-exact policies (typed value = the bytes) -/
+
+@[simp] theorem ORel_none_none {X : Type} (R : Bytes → X → Prop) : ORel R none none = True := rfl
+@[simp] theorem ORel_some_some {X : Type} (R : Bytes → X → Prop) (b : Bytes) (x : X) :
+    ORel R (some b) (some x) = R b x := rfl
+@[simp] theorem ORel_none_some {X : Type} (R : Bytes → X → Prop) (x : X) : ORel R none (some x) = False := rfl
+@[simp] theorem ORel_some_none {X : Type} (R : Bytes → X → Prop) (b : Bytes) : ORel R (some b) none = False := rfl
+
+/-- with the identity representation both sides are equal -/
+theorem ORel_eq {x y : Option Bytes} {f : Option Bytes}
+    (hx : ORel (fun b v => b = v) x f) (hy : ORel (fun b v => b = v) y f) : x = y := by
+  cases x <;> cases y <;> cases f <;> simp_all
+
+theorem stripTag_id {cfg : Cfg} (h : cfg.policy ≠ .setSum) (x : Option Bytes) : stripTag cfg x = x := by
+  cases x <;> simp [stripTag, h]
+
+/-- `set` -/
+def refSet (cfg : Cfg) (sem : Sem) (hpol : cfg.policy = .set) : Refine cfg sem (algSet Bytes) where
+  okOp op := op.kind = .set
+  wOf op := op.val
+  RF b f := b = f
+  RP b f := b = f
+  notDel op h := by rw [h]; simp
+  stepF op x x' fx hok _ hke := by
+    simp only [keyEffect, hok, ↓reduceIte, Option.some.injEq] at hke
+    subst hke; simp [algSet]
+  stepP op x x' fx hok _ hke := by
+    simp only [keyEffect, hok, ↓reduceIte, Option.some.injEq] at hke
+    subst hke; simp [algSet]
+  mrg x x' v fx pv _ hv hm := by
+    simp only [mergeVal, mergeGen, hpol, Option.some.injEq] at hm
+    subst hm; subst hv; simp [algSet]
+
+theorem mergeVal_sine {cfg : Cfg} (hpol : cfg.policy = .setIfNotExists) (x : Option Bytes) (v : Bytes) :
+    mergeVal cfg x v = some (match x with | some c => some c | none => some v) := by
+  cases x <;> simp [mergeVal, mergeGen, hpol]
+
+/-- `set_if_not_exists` -/
+def refSine (cfg : Cfg) (sem : Sem) (hpol : cfg.policy = .setIfNotExists) : Refine cfg sem (algSine Bytes) where
+  okOp op := op.kind = .setIfNotExists
+  wOf op := op.val
+  RF b f := b = f
+  RP b f := b = f
+  notDel op h := by rw [h]; simp
+  stepF op x x' fx hok hr hke := by
+    simp only [keyEffect, hok, ↓reduceIte, Option.some.injEq] at hke
+    subst hke
+    cases x <;> cases fx <;> simp_all [algSine]
+  stepP op x x' fx hok hr hke := by
+    simp only [keyEffect, hok, ↓reduceIte, Option.some.injEq] at hke
+    subst hke
+    cases x <;> cases fx <;> simp_all [algSine]
+  mrg x x' v fx pv hr hv hm := by
+    rw [mergeVal_sine hpol, Option.some.injEq] at hm
+    subst hv; subst hm
+    cases x <;> cases fx <;> simp_all [algSine]
+
+theorem keyEffect_append {cfg : Cfg} (hpol : cfg.policy = .append) {op : Op} (hok : op.kind = .append)
+    (x : Option Bytes) :
+    keyEffect cfg (stdSem cfg) op.key x op =
+      match x with
+      | none => some (some op.val)
+      | some old =>
+        if cfg.appendLimit > 0 ∧ old.length + op.val.length ≥ cfg.appendLimit then none
+        else some (some (old ++ op.val)) := by
+  have hst : stripTag cfg x = x := stripTag_id (by rw [hpol]; simp) x
+  simp only [keyEffect, viaSem, hok, ↓reduceIte, isSetSum, Bool.false_eq_true, hst, stdSem, semAppend]
+  cases x with
+  | none => rfl
+  | some old =>
+    dsimp only
+    by_cases hlim : cfg.appendLimit > 0 ∧ old.length + op.val.length ≥ cfg.appendLimit
+    · rw [if_pos hlim, if_pos hlim]
+    · rw [if_neg hlim, if_neg hlim]
+
+theorem mergeVal_append {cfg : Cfg} (hpol : cfg.policy = .append) (x : Option Bytes) (v : Bytes) :
+    mergeVal cfg x v =
+      match x with
+      | none => some (some v)
+      | some prev =>
+        if cfg.appendLimit > 0 ∧ prev.length + v.length ≥ cfg.appendLimit then none
+        else some (some (prev ++ v)) := by
+  simp only [mergeVal, mergeGen, hpol]
+  cases x with
+  | none => rfl
+  | some old =>
+    dsimp only
+    by_cases hlim : cfg.appendLimit > 0 ∧ old.length + v.length ≥ cfg.appendLimit
+    · rw [if_pos hlim, if_pos hlim]
+    · rw [if_neg hlim, if_neg hlim]
+
+/-- `append` (the concrete `semAppend`; an append over the limit is an error, i.e. not a successful step) -/
+def refAppend (cfg : Cfg) (hpol : cfg.policy = .append) : Refine cfg (stdSem cfg) (algAppend UInt8) where
+  okOp op := op.kind = .append
+  wOf op := op.val
+  RF b f := b = f
+  RP b f := b = f
+  notDel op h := by rw [h]; simp
+  stepF op x x' fx hok hr hke := by
+    rw [keyEffect_append hpol hok] at hke
+    cases x <;> cases fx <;> simp only [ORel_none_none, ORel_some_some, ORel_none_some, ORel_some_none] at hr
+    · simp only [Option.some.injEq] at hke; subst hke; simp [algAppend]
+    · subst hr
+      dsimp only at hke
+      split at hke
+      · simp at hke
+      · simp only [Option.some.injEq] at hke; subst hke; simp [algAppend]
+  stepP op x x' fx hok hr hke := by
+    rw [keyEffect_append hpol hok] at hke
+    cases x <;> cases fx <;> simp only [ORel_none_none, ORel_some_some, ORel_none_some, ORel_some_none] at hr
+    · simp only [Option.some.injEq] at hke; subst hke; simp [algAppend]
+    · subst hr
+      dsimp only at hke
+      split at hke
+      · simp at hke
+      · simp only [Option.some.injEq] at hke; subst hke; simp [algAppend]
+  mrg x x' v fx pv hr hv hm := by
+    rw [mergeVal_append hpol] at hm
+    subst hv
+    cases x <;> cases fx <;> simp only [ORel_none_none, ORel_some_some, ORel_none_some, ORel_some_none] at hr
+    · simp only [Option.some.injEq] at hm; subst hm; simp [algAppend]
+    · subst hr
+      dsimp only at hm
+      split at hm
+      · simp at hm
+      · simp only [Option.some.injEq] at hm; subst hm; simp [algAppend]
+
+/-! ### B4: `add`, `min`, `max` over int64 and bigint (typed value = the integer; stored text = its
+canonical rendering, which is what every writer of these policies produces) -/
+
+/-- the shape of `keyEffect` on the key of an operation whose value goes through `stdSem` -/
+def SemShape (cfg : Cfg) (kind : OpKind) : Prop :=
+  ∀ (op : Op) (x : Option Bytes), op.kind = kind →
+    keyEffect cfg (stdSem cfg) op.key x op =
+      match stdSem cfg kind x op.val with
+      | .ok nv => some (some nv)
+      | .error _ => none
+
+theorem semShape_sum {cfg : Cfg} (h : cfg.policy ≠ .setSum) (vt : VT) : SemShape cfg (.sum vt) := by
+  intro op x hk
+  simp only [keyEffect, viaSem, hk, ↓reduceIte, isSetSum, Bool.false_eq_true, stripTag_id h]
+
+theorem semShape_max {cfg : Cfg} (h : cfg.policy ≠ .setSum) (vt : VT) : SemShape cfg (.max vt) := by
+  intro op x hk
+  simp only [keyEffect, viaSem, hk, ↓reduceIte, isSetSum, Bool.false_eq_true, stripTag_id h]
+
+theorem semShape_min {cfg : Cfg} (h : cfg.policy ≠ .setSum) (vt : VT) : SemShape cfg (.min vt) := by
+  intro op x hk
+  simp only [keyEffect, viaSem, hk, ↓reduceIte, isSetSum, Bool.false_eq_true, stripTag_id h]
+
+/-- a numeric policy whose stored texts are canonical renderings of integers satisfying `ok`
+(`True` for bigint, the int64 range for int64) -/
+def refCombine (cfg : Cfg) (C : Combine Int) (ok : Int → Prop) (arg : Bytes → Int) (kind : OpKind)
+    (hnd : kind ≠ .deletePrefix) (hshape : SemShape cfg kind)
+    (harg : ∀ v, ok (arg v)) (hop : ∀ a b, ok a → ok b → ok (C.op a b))
+    (hsemN : ∀ v, stdSem cfg kind none v = .ok (renderInt (arg v)))
+    (hsemS : ∀ i v, ok i → stdSem cfg kind (some (renderInt i)) v = .ok (renderInt (C.op i (arg v))))
+    (hmrgN : ∀ b, ok b → mergeVal cfg none (renderInt b) = some (some (renderInt b)))
+    (hmrgS : ∀ a b, ok a → ok b →
+      mergeVal cfg (some (renderInt a)) (renderInt b) = some (some (renderInt (C.op a b)))) :
+    Refine cfg (stdSem cfg) (algCombine C) where
+  okOp op := op.kind = kind
+  wOf op := arg op.val
+  RF b i := b = renderInt i ∧ ok i
+  RP b i := b = renderInt i ∧ ok i
+  notDel op h := by rw [h]; exact hnd
+  stepF op x x' fx hok hr hke := by
+    rw [hshape op x hok] at hke
+    cases x <;> cases fx <;> simp only [ORel_none_none, ORel_some_some, ORel_none_some, ORel_some_none] at hr
+    · rw [hsemN] at hke
+      simp only [Option.some.injEq] at hke; subst hke
+      exact ⟨rfl, harg _⟩
+    · obtain ⟨h1, h2⟩ := hr
+      subst h1
+      rw [hsemS _ _ h2] at hke
+      simp only [Option.some.injEq] at hke; subst hke
+      exact ⟨rfl, hop _ _ h2 (harg _)⟩
+  stepP op x x' fx hok hr hke := by
+    rw [hshape op x hok] at hke
+    cases x <;> cases fx <;> simp only [ORel_none_none, ORel_some_some, ORel_none_some, ORel_some_none] at hr
+    · rw [hsemN] at hke
+      simp only [Option.some.injEq] at hke; subst hke
+      exact ⟨rfl, harg _⟩
+    · obtain ⟨h1, h2⟩ := hr
+      subst h1
+      rw [hsemS _ _ h2] at hke
+      simp only [Option.some.injEq] at hke; subst hke
+      exact ⟨rfl, hop _ _ h2 (harg _)⟩
+  mrg x x' v fx pv hr hv hm := by
+    obtain ⟨hv1, hv2⟩ := hv
+    subst hv1
+    cases x <;> cases fx <;> simp only [ORel_none_none, ORel_some_some, ORel_none_some, ORel_some_none] at hr
+    · rw [hmrgN _ hv2] at hm
+      simp only [Option.some.injEq] at hm; subst hm
+      exact ⟨rfl, hv2⟩
+    · obtain ⟨h1, h2⟩ := hr
+      subst h1
+      rw [hmrgS _ _ h2 hv2] at hm
+      simp only [Option.some.injEq] at hm; subst hm
+      exact ⟨rfl, hop _ _ h2 hv2⟩
+
+/-- with canonical representations both sides hold the same bytes -/
+theorem ORel_canon {ok : Int → Prop} {x y : Option Bytes} {f : Option Int}
+    (hx : ORel (fun b i => b = renderInt i ∧ ok i) x f) (hy : ORel (fun b i => b = renderInt i ∧ ok i) y f) :
+    x = y := by
+  cases x <;> cases y <;> cases f <;> simp_all
+
+def combAdd64 : Combine Int :=
+  ⟨fun a b => wrap64 (a + b), by intro a b c; unfold wrap64 two63 two64; omega⟩
+def combAddInt : Combine Int := ⟨(· + ·), Int.add_assoc⟩
+def combMax : Combine Int :=
+  ⟨max, by intro a b c; simp only [Int.max_def]; repeat' split
+           all_goals omega⟩
+def combMin : Combine Int :=
+  ⟨min, by intro a b c; simp only [Int.min_def]; repeat' split
+           all_goals omega⟩
+
+theorem foundOrZeroInt64_render (i : Int) (h : InRange64 i) : foundOrZeroInt64 (some (renderInt i)) = i := by
+  simp [foundOrZeroInt64, parseInt64_renderInt i h]
+
+/-- `add` over int64 -/
+def refAddInt64 (cfg : Cfg) (hpol : cfg.policy = .add) (hvt : cfg.vt = .int64) :
+    Refine cfg (stdSem cfg) (algCombine combAdd64) :=
+  refCombine cfg combAdd64 InRange64 argInt64 (.sum .int64) (by simp)
+    (semShape_sum (by rw [hpol]; simp) _)
+    argInt64_inRange (fun _ _ _ _ => wrap64_inRange _)
+    (fun v => rfl)
+    (fun i v h => by simp [stdSem, semSum, parseInt64_renderInt i h, combAdd64])
+    (fun b h => by
+      simp only [mergeVal, mergeGen, hpol, hvt, foundOrZeroInt64_render b h]
+      simp [foundOrZeroInt64, wrap64_id b h])
+    (fun a b ha hb => by
+      simp only [mergeVal, mergeGen, hpol, hvt, foundOrZeroInt64_render _ ha, foundOrZeroInt64_render _ hb]
+      rfl)
+
+/-- `add` over bigint -/
+def refAddBigInt (cfg : Cfg) (hpol : cfg.policy = .add) (hvt : cfg.vt = .bigint) :
+    Refine cfg (stdSem cfg) (algCombine combAddInt) :=
+  refCombine cfg combAddInt (fun _ => True) argBigInt (.sum .bigint) (by simp)
+    (semShape_sum (by rw [hpol]; simp) _)
+    (fun _ => trivial) (fun _ _ _ _ => trivial)
+    (fun v => rfl)
+    (fun i v _ => by simp [stdSem, semSum, parseInt_renderInt, combAddInt])
+    (fun b _ => by
+      simp [mergeVal, mergeGen, hpol, hvt, foundOrZeroBigInt, parseInt_renderInt])
+    (fun a b _ _ => by
+      simp [mergeVal, mergeGen, hpol, hvt, foundOrZeroBigInt, parseInt_renderInt, combAddInt])
+
+/-- closes `renderInt (if … then a else b) = renderInt (max/min a b)` -/
+local macro "minmax_tac" : tactic =>
+  `(tactic| (congr 1 <;> first
+      | (simp only [Int.max_def, Int.min_def]; done)
+      | (simp only [Int.max_def, Int.min_def]; (repeat' split) <;> omega)))
+
+theorem max_inRange {a b : Int} (ha : InRange64 a) (hb : InRange64 b) : InRange64 (max a b) := by
+  simp only [Int.max_def]; split <;> assumption
+
+theorem min_inRange {a b : Int} (ha : InRange64 a) (hb : InRange64 b) : InRange64 (min a b) := by
+  simp only [Int.min_def]; split <;> assumption
+
+/-- `max` over int64 -/
+def refMaxInt64 (cfg : Cfg) (hpol : cfg.policy = .max) (hvt : cfg.vt = .int64) :
+    Refine cfg (stdSem cfg) (algCombine combMax) :=
+  refCombine cfg combMax InRange64 argInt64 (.max .int64) (by simp)
+    (semShape_max (by rw [hpol]; simp) _)
+    argInt64_inRange (fun _ _ ha hb => max_inRange ha hb)
+    (fun v => rfl)
+    (fun i v h => by
+      simp [stdSem, semMinMax, parseInt64_renderInt i h, combMax] <;> minmax_tac)
+    (fun b h => by simp [mergeVal, mergeGen, hpol, hvt, foundOrZeroInt64_render _ h])
+    (fun a b ha hb => by
+      simp [mergeVal, mergeGen, hpol, hvt, foundOrZeroInt64_render _ ha, foundOrZeroInt64_render _ hb, combMax] <;> minmax_tac)
+
+/-- `min` over int64 -/
+def refMinInt64 (cfg : Cfg) (hpol : cfg.policy = .min) (hvt : cfg.vt = .int64) :
+    Refine cfg (stdSem cfg) (algCombine combMin) :=
+  refCombine cfg combMin InRange64 argInt64 (.min .int64) (by simp)
+    (semShape_min (by rw [hpol]; simp) _)
+    argInt64_inRange (fun _ _ ha hb => min_inRange ha hb)
+    (fun v => rfl)
+    (fun i v h => by
+      simp [stdSem, semMinMax, parseInt64_renderInt i h, combMin] <;> minmax_tac)
+    (fun b h => by simp [mergeVal, mergeGen, hpol, hvt, foundOrZeroInt64_render _ h])
+    (fun a b ha hb => by
+      simp [mergeVal, mergeGen, hpol, hvt, foundOrZeroInt64_render _ ha, foundOrZeroInt64_render _ hb, combMin] <;> minmax_tac)
+
+/-- `max` over bigint -/
+def refMaxBigInt (cfg : Cfg) (hpol : cfg.policy = .max) (hvt : cfg.vt = .bigint) :
+    Refine cfg (stdSem cfg) (algCombine combMax) :=
+  refCombine cfg combMax (fun _ => True) argBigInt (.max .bigint) (by simp)
+    (semShape_max (by rw [hpol]; simp) _)
+    (fun _ => trivial) (fun _ _ _ _ => trivial)
+    (fun v => rfl)
+    (fun i v _ => by
+      simp [stdSem, semMinMax, parseInt_renderInt, combMax] <;> minmax_tac)
+    (fun b _ => by simp [mergeVal, mergeGen, hpol, hvt, foundOrZeroBigInt, parseInt_renderInt])
+    (fun a b _ _ => by
+      simp [mergeVal, mergeGen, hpol, hvt, foundOrZeroBigInt, parseInt_renderInt, combMax] <;> minmax_tac)
+
+/-- `min` over bigint -/
+def refMinBigInt (cfg : Cfg) (hpol : cfg.policy = .min) (hvt : cfg.vt = .bigint) :
+    Refine cfg (stdSem cfg) (algCombine combMin) :=
+  refCombine cfg combMin (fun _ => True) argBigInt (.min .bigint) (by simp)
+    (semShape_min (by rw [hpol]; simp) _)
+    (fun _ => trivial) (fun _ _ _ _ => trivial)
+    (fun v => rfl)
+    (fun i v _ => by
+      simp [stdSem, semMinMax, parseInt_renderInt, combMin] <;> minmax_tac)
+    (fun b _ => by simp [mergeVal, mergeGen, hpol, hvt, foundOrZeroBigInt, parseInt_renderInt])
+    (fun a b _ _ => by
+      simp [mergeVal, mergeGen, hpol, hvt, foundOrZeroBigInt, parseInt_renderInt, combMin] <;> minmax_tac)
+
+/-! ### B4: `set_sum` over int64 and bigint.  A stored value is a tag (`"sum:"`/`"set:"`) followed by the
+canonical rendering; the typed value of a full store ignores the tag (`stripTag`), a partial store's
+tag says whether a `set` happened in its segment.  Operands are canonical tagged texts (what the host
+interface produces). -/
+
+/-- the typed reading of a `set_sum` operand -/
+def wOfSS (v : Bytes) : SS Int :=
+  if isPrefix pfxSet v then .set ((parseInt (v.drop 4)).getD 0) else .sum ((parseInt (v.drop 4)).getD 0)
+
+theorem wOfSS_sum (i : Int) : wOfSS (pfxSum ++ renderInt i) = .sum i := by
+  simp [wOfSS, pfxSum, pfxSet, isPrefix, parseInt_renderInt]
+
+theorem wOfSS_set (i : Int) : wOfSS (pfxSet ++ renderInt i) = .set i := by
+  simp [wOfSS, pfxSet, isPrefix, parseInt_renderInt]
+
+def IsTag (t : Bytes) : Prop := t = pfxSum ∨ t = pfxSet
+
+theorem semSetSum_none (vt : VT) (v : Bytes) : semSetSum vt none v = .ok v := rfl
+
+theorem semSetSum_set (vt : VT) (c r : Bytes) : semSetSum vt (some c) (pfxSet ++ r) = .ok (pfxSet ++ r) := by
+  simp [semSetSum, pfxSet, pfxSum]
+
+theorem semShape_setSum (cfg : Cfg) (vt : VT) : SemShape cfg (.setSum vt) := by
+  intro op x hk
+  simp only [keyEffect, viaSem, hk, ↓reduceIte, isSetSum]
+
+def refSetSum (cfg : Cfg) (C : Combine Int) (ok : Int → Prop) (vt : VT)
+    (hop : ∀ a b, ok a → ok b → ok (C.op a b))
+    (hsem : ∀ tag a b, IsTag tag → ok a → ok b →
+      stdSem cfg (.setSum vt) (some (tag ++ renderInt a)) (pfxSum ++ renderInt b) = .ok (tag ++ renderInt (C.op a b)))
+    (hmrgSet : ∀ x b, ok b → mergeVal cfg x (pfxSet ++ renderInt b) = some (some (pfxSum ++ renderInt b)))
+    (hmrgN : ∀ b, ok b → mergeVal cfg none (pfxSum ++ renderInt b) = some (some (pfxSum ++ renderInt b)))
+    (hmrgS : ∀ tag a b, IsTag tag → ok a → ok b →
+      mergeVal cfg (some (tag ++ renderInt a)) (pfxSum ++ renderInt b) = some (some (pfxSum ++ renderInt (C.op a b)))) :
+    Refine cfg (stdSem cfg) (algSetSum C) where
+  okOp op := op.kind = .setSum vt ∧ ∃ i, ok i ∧ (op.val = pfxSum ++ renderInt i ∨ op.val = pfxSet ++ renderInt i)
+  wOf op := wOfSS op.val
+  RF b i := ok i ∧ ∃ tag, IsTag tag ∧ b = tag ++ renderInt i
+  RP b ti := ok ti.2 ∧ b = (if ti.1 then pfxSet else pfxSum) ++ renderInt ti.2
+  notDel op h := by rw [h.1]; simp
+  stepF op x x' fx hok hr hke := by
+    obtain ⟨hkind, i, hi, hval⟩ := hok
+    rw [semShape_setSum cfg vt op x hkind] at hke
+    rcases hval with hval | hval
+    · rw [hval, wOfSS_sum]
+      rw [hval] at hke
+      cases x <;> cases fx <;> simp only [ORel_none_none, ORel_some_some, ORel_none_some, ORel_some_none] at hr
+      · simp only [stdSem, semSetSum_none, Option.some.injEq] at hke; subst hke
+        exact ⟨hi, pfxSum, Or.inl rfl, rfl⟩
+      · obtain ⟨h1, tag, h2, h3⟩ := hr
+        subst h3
+        rw [hsem tag _ _ h2 h1 hi] at hke
+        simp only [Option.some.injEq] at hke; subst hke
+        exact ⟨hop _ _ h1 hi, tag, h2, rfl⟩
+    · rw [hval, wOfSS_set]
+      rw [hval] at hke
+      have : x' = some (pfxSet ++ renderInt i) := by
+        cases x
+        · simp only [stdSem, semSetSum_none, Option.some.injEq] at hke; exact hke.symm
+        · simp only [stdSem, semSetSum_set, Option.some.injEq] at hke; exact hke.symm
+      subst this
+      exact ⟨hi, pfxSet, Or.inr rfl, rfl⟩
+  stepP op x x' fx hok hr hke := by
+    obtain ⟨hkind, i, hi, hval⟩ := hok
+    rw [semShape_setSum cfg vt op x hkind] at hke
+    rcases hval with hval | hval
+    · rw [hval, wOfSS_sum]
+      rw [hval] at hke
+      cases x <;> cases fx <;> simp only [ORel_none_none, ORel_some_some, ORel_none_some, ORel_some_none] at hr
+      · simp only [stdSem, semSetSum_none, Option.some.injEq] at hke; subst hke
+        exact ⟨hi, rfl⟩
+      · rename_i ti
+        obtain ⟨t, a⟩ := ti
+        obtain ⟨h1, h3⟩ := hr
+        subst h3
+        have htag : IsTag (if t = true then pfxSet else pfxSum) := by
+          cases t
+          · exact Or.inl rfl
+          · exact Or.inr rfl
+        rw [hsem _ _ _ htag h1 hi] at hke
+        simp only [Option.some.injEq] at hke; subst hke
+        exact ⟨hop _ _ h1 hi, rfl⟩
+    · rw [hval, wOfSS_set]
+      rw [hval] at hke
+      have : x' = some (pfxSet ++ renderInt i) := by
+        cases x
+        · simp only [stdSem, semSetSum_none, Option.some.injEq] at hke; exact hke.symm
+        · simp only [stdSem, semSetSum_set, Option.some.injEq] at hke; exact hke.symm
+      subst this
+      cases fx with
+      | none => exact ⟨hi, rfl⟩
+      | some ti => obtain ⟨t, a⟩ := ti; exact ⟨hi, rfl⟩
+  mrg x x' v fx pv hr hv hm := by
+    obtain ⟨t, b⟩ := pv
+    obtain ⟨hb, hv⟩ := hv
+    subst hv
+    cases t
+    · simp only [Bool.false_eq_true, ↓reduceIte] at hm
+      cases x <;> cases fx <;> simp only [ORel_none_none, ORel_some_some, ORel_none_some, ORel_some_none] at hr
+      · rw [hmrgN _ hb] at hm
+        simp only [Option.some.injEq] at hm; subst hm
+        exact ⟨hb, pfxSum, Or.inl rfl, rfl⟩
+      · obtain ⟨h1, tag, h2, h3⟩ := hr
+        subst h3
+        rw [hmrgS tag _ _ h2 h1 hb] at hm
+        simp only [Option.some.injEq] at hm; subst hm
+        exact ⟨hop _ _ h1 hb, pfxSum, Or.inl rfl, rfl⟩
+    · simp only [↓reduceIte] at hm
+      rw [hmrgSet _ _ hb] at hm
+      simp only [Option.some.injEq] at hm; subst hm
+      cases fx <;> exact ⟨hb, pfxSum, Or.inl rfl, rfl⟩
+
+/-- with tagged canonical representations the typed (tag-stripped) values agree -/
+theorem ORel_tagged {cfg : Cfg} (hpol : cfg.policy = .setSum) {ok : Int → Prop} {x y : Option Bytes} {f : Option Int}
+    (hx : ORel (fun b i => ok i ∧ ∃ tag, IsTag tag ∧ b = tag ++ renderInt i) x f)
+    (hy : ORel (fun b i => ok i ∧ ∃ tag, IsTag tag ∧ b = tag ++ renderInt i) y f) :
+    stripTag cfg x = stripTag cfg y := by
+  have key : ∀ tag i, IsTag tag → stripTag cfg (some (tag ++ renderInt i)) = some (renderInt i) := by
+    intro tag i ht
+    rcases ht with rfl | rfl <;> simp [stripTag, hpol, pfxSum, pfxSet, isPrefix]
+  cases x <;> cases y <;> cases f <;>
+    simp only [ORel_none_none, ORel_some_some, ORel_none_some, ORel_some_none] at hx hy
+  · rfl
+  · obtain ⟨_, t1, h1, rfl⟩ := hx
+    obtain ⟨_, t2, h2, rfl⟩ := hy
+    rw [key _ _ h1, key _ _ h2]
+
+theorem tag_take {tag : Bytes} (h : IsTag tag) (r : Bytes) :
+    (tag ++ r).take 4 = tag ∧ (tag ++ r).drop 4 = r ∧ ¬ (tag ++ r).length < 4 := by
+  rcases h with rfl | rfl <;> simp [pfxSum, pfxSet]
+
+/-- `set_sum` over int64 -/
+def refSetSumInt64 (cfg : Cfg) (hpol : cfg.policy = .setSum) (hvt : cfg.vt = .int64) :
+    Refine cfg (stdSem cfg) (algSetSum combAdd64) :=
+  refSetSum cfg combAdd64 InRange64 .int64 (fun _ _ _ _ => wrap64_inRange _)
+    (fun tag a b ht ha hb => by
+      obtain ⟨t1, t2, t3⟩ := tag_take ht (renderInt a)
+      obtain ⟨s1, s2, s3⟩ := tag_take (Or.inl rfl) (renderInt b)
+      simp only [stdSem, semSetSum, t1, t2, t3, s1, s2, s3, ↓reduceIte, parseInt64_renderInt _ ha,
+        parseInt64_renderInt _ hb, Option.getD_some, combAdd64])
+    (fun x b hb => by
+      have : isPrefix pfxSet (pfxSet ++ renderInt b) = true := by simp [pfxSet, isPrefix]
+      simp [mergeVal, mergeGen, hpol, hvt, this, (tag_take (Or.inr rfl) (renderInt b)).2.1])
+    (fun b hb => by
+      have : isPrefix pfxSet (pfxSum ++ renderInt b) = false := by simp [pfxSet, pfxSum, isPrefix]
+      simp [mergeVal, mergeGen, hpol, hvt, this, (tag_take (Or.inl rfl) (renderInt b)).2.1,
+        parseInt64_renderInt _ hb, wrap64_id b hb])
+    (fun tag a b ht ha hb => by
+      have : isPrefix pfxSet (pfxSum ++ renderInt b) = false := by simp [pfxSet, pfxSum, isPrefix]
+      simp [mergeVal, mergeGen, hpol, hvt, this, (tag_take (Or.inl rfl) (renderInt b)).2.1,
+        (tag_take ht (renderInt a)).2.1, parseInt64_renderInt _ hb, parseInt64_renderInt _ ha, combAdd64])
+
+/-- `set_sum` over bigint -/
+def refSetSumBigInt (cfg : Cfg) (hpol : cfg.policy = .setSum) (hvt : cfg.vt = .bigint) :
+    Refine cfg (stdSem cfg) (algSetSum combAddInt) :=
+  refSetSum cfg combAddInt (fun _ => True) .bigint (fun _ _ _ _ => trivial)
+    (fun tag a b ht _ _ => by
+      obtain ⟨t1, t2, t3⟩ := tag_take ht (renderInt a)
+      obtain ⟨s1, s2, s3⟩ := tag_take (Or.inl rfl) (renderInt b)
+      simp only [stdSem, semSetSum, t1, t2, t3, s1, s2, s3, ↓reduceIte, argBigInt, parseInt_renderInt,
+        Option.getD_some, combAddInt])
+    (fun x b _ => by
+      have : isPrefix pfxSet (pfxSet ++ renderInt b) = true := by simp [pfxSet, isPrefix]
+      simp [mergeVal, mergeGen, hpol, hvt, this, (tag_take (Or.inr rfl) (renderInt b)).2.1])
+    (fun b _ => by
+      have : isPrefix pfxSet (pfxSum ++ renderInt b) = false := by simp [pfxSet, pfxSum, isPrefix]
+      simp [mergeVal, mergeGen, hpol, hvt, this, (tag_take (Or.inl rfl) (renderInt b)).2.1,
+        parseInt_renderInt])
+    (fun tag a b ht _ _ => by
+      have : isPrefix pfxSet (pfxSum ++ renderInt b) = false := by simp [pfxSet, pfxSum, isPrefix]
+      simp [mergeVal, mergeGen, hpol, hvt, this, (tag_take (Or.inl rfl) (renderInt b)).2.1,
+        (tag_take ht (renderInt a)).2.1, parseInt_renderInt, combAddInt])
+
+/-! ### B4: `add`, `min`, `max` over bigdecimal.  Operands have at most 34 decimals (the host interface
+truncates them: `hostOp`), so every stored value has at most 34 decimals, merge's `Truncate(34)` is the
+identity, and the typed value is the integer `value × 10^34` (`typedDec34`).  Stored texts are not
+canonical as `Dec`s (`"1.50"` reads as 150/100, is written as `"1.5"`), so the representation relation is
+"reads as" (`RepDec`) rather than "is the rendering of". -/
+
+/-- like `refCombine`, for a representation relation `Rep` (stored text ↦ typed value) and operands that
+must satisfy `okArg` -/
+def refCombineR (cfg : Cfg) (C : Combine Int) (Rep : Bytes → Int → Prop) (okArg : Bytes → Prop)
+    (arg : Bytes → Int) (kind : OpKind)
+    (hnd : kind ≠ .deletePrefix) (hshape : SemShape cfg kind)
+    (hsemN : ∀ v, okArg v → ∃ nv, stdSem cfg kind none v = .ok nv ∧ Rep nv (arg v))
+    (hsemS : ∀ c i v, Rep c i → okArg v → ∃ nv, stdSem cfg kind (some c) v = .ok nv ∧ Rep nv (C.op i (arg v)))
+    (hmrgN : ∀ v b, Rep v b → ∃ r, mergeVal cfg none v = some (some r) ∧ Rep r b)
+    (hmrgS : ∀ c a v b, Rep c a → Rep v b → ∃ r, mergeVal cfg (some c) v = some (some r) ∧ Rep r (C.op a b)) :
+    Refine cfg (stdSem cfg) (algCombine C) where
+  okOp op := op.kind = kind ∧ okArg op.val
+  wOf op := arg op.val
+  RF := Rep
+  RP := Rep
+  notDel op h := by rw [h.1]; exact hnd
+  stepF op x x' fx hok hr hke := by
+    rw [hshape op x hok.1] at hke
+    cases x <;> cases fx <;> simp only [ORel_none_none, ORel_some_some, ORel_none_some, ORel_some_none] at hr
+    · obtain ⟨nv, h1, h2⟩ := hsemN _ hok.2
+      rw [h1] at hke
+      simp only [Option.some.injEq] at hke; subst hke
+      exact h2
+    · obtain ⟨nv, h1, h2⟩ := hsemS _ _ _ hr hok.2
+      rw [h1] at hke
+      simp only [Option.some.injEq] at hke; subst hke
+      exact h2
+  stepP op x x' fx hok hr hke := by
+    rw [hshape op x hok.1] at hke
+    cases x <;> cases fx <;> simp only [ORel_none_none, ORel_some_some, ORel_none_some, ORel_some_none] at hr
+    · obtain ⟨nv, h1, h2⟩ := hsemN _ hok.2
+      rw [h1] at hke
+      simp only [Option.some.injEq] at hke; subst hke
+      exact h2
+    · obtain ⟨nv, h1, h2⟩ := hsemS _ _ _ hr hok.2
+      rw [h1] at hke
+      simp only [Option.some.injEq] at hke; subst hke
+      exact h2
+  mrg x x' v fx pv hr hv hm := by
+    cases x <;> cases fx <;> simp only [ORel_none_none, ORel_some_some, ORel_none_some, ORel_some_none] at hr
+    · obtain ⟨r, h1, h2⟩ := hmrgN _ _ hv
+      rw [h1] at hm
+      simp only [Option.some.injEq] at hm; subst hm
+      exact h2
+    · obtain ⟨r, h1, h2⟩ := hmrgS _ _ _ _ hr hv
+      rw [h1] at hm
+      simp only [Option.some.injEq] at hm; subst hm
+      exact h2
+
+/-- a bigdecimal operand as it reaches the store: parses, at most 34 decimals -/
+def DecOperand (v : Bytes) : Prop := ∃ d, Dec.parse v = some d ∧ d.scale ≤ 34
+
+/-- its typed value -/
+def argDec34 (v : Bytes) : Int := ((Dec.parse v).getD ⟨0, 0⟩).val34
+
+/-- what `hostOp` (wasm/call.go) hands to the store for `add`/`min`/`max` bigdecimal is such an operand -/
+theorem hostOp_decOperand {op op' : Op}
+    (hk : op.kind = .sum .bigdecimal ∨ op.kind = .max .bigdecimal ∨ op.kind = .min .bigdecimal)
+    (h : hostOp op = some op') : op'.kind = op.kind ∧ DecOperand op'.val := by
+  unfold hostOp at h
+  have key : ∀ knd : OpKind, (match Dec.parse op.val with
+      | none => none
+      | some d => some (⟨knd, op.ord, op.key, (d.truncate 34).render⟩ : Op)) = some op' →
+      op'.kind = knd ∧ DecOperand op'.val := by
+    intro knd h
+    split at h
+    · simp at h
+    · rename_i d hd
+      simp only [Option.some.injEq] at h
+      subst h
+      refine ⟨rfl, ?_⟩
+      obtain ⟨d', p1, p2, _⟩ := Dec.parse_render (d.truncate 34)
+      exact ⟨d', p1, Nat.le_trans p2 (Dec.truncate_scale d)⟩
+  rcases hk with hk | hk | hk <;>
+    (simp only [hk] at h; obtain ⟨h1, h2⟩ := key _ h; exact ⟨h1.trans hk.symm, h2⟩)
+
+theorem typed_eq_of_repDec {x y : Option Bytes} {f : Option Int}
+    (hx : ORel RepDec x f) (hy : ORel RepDec y f) :
+    x.isSome = y.isSome ∧ x.bind typedDec34 = y.bind typedDec34 := by
+  cases x <;> cases y <;> cases f <;>
+    simp only [ORel_none_none, ORel_some_some, ORel_none_some, ORel_some_none] at hx hy
+  · exact ⟨rfl, rfl⟩
+  · exact ⟨rfl, by simp only [Option.bind_some, hx.typed, hy.typed]⟩
+
+theorem foundOrZeroDec_rep {v : Bytes} {b : Int} (h : RepDec v b) :
+    ∃ d, foundOrZeroDec (some v) = some d ∧ d.scale ≤ 34 ∧ d.val34 = b := by
+  obtain ⟨d, h1, h2, h3⟩ := h
+  exact ⟨d, by simp [foundOrZeroDec, h1, Dec.truncate_id d h2], h2, h3⟩
+
+/-- `add` over bigdecimal -/
+def refAddDec (cfg : Cfg) (hpol : cfg.policy = .add) (hvt : cfg.vt = .bigdecimal) :
+    Refine cfg (stdSem cfg) (algCombine combAddInt) :=
+  refCombineR cfg combAddInt RepDec DecOperand argDec34 (.sum .bigdecimal) (by simp)
+    (semShape_sum (by rw [hpol]; simp) _)
+    (fun v hv => by
+      obtain ⟨d, h1, h2⟩ := hv
+      refine ⟨d.render, by simp [stdSem, semSum, h1], ?_⟩
+      have := repDec_render d h2
+      simpa [argDec34, h1] using this)
+    (fun c i v hc hv => by
+      obtain ⟨d, h1, h2⟩ := hv
+      obtain ⟨p, p1, p2, p3⟩ := hc
+      refine ⟨(p.add d).render, by simp [stdSem, semSum, h1, p1], ?_⟩
+      obtain ⟨a1, a2⟩ := Dec.val34_add p d p2 h2
+      have := repDec_render (p.add d) a1
+      rw [a2, p3] at this
+      simpa [argDec34, h1, combAddInt] using this)
+    (fun v b hv => by
+      obtain ⟨d, f1, f2, f3⟩ := foundOrZeroDec_rep hv
+      have f0 : foundOrZeroDec none = some ⟨0, 0⟩ := rfl
+      refine ⟨((⟨0, 0⟩ : Dec).add d).render, by simp [mergeVal, mergeGen, hpol, hvt, f1, f0], ?_⟩
+      obtain ⟨a1, a2⟩ := Dec.val34_add ⟨0, 0⟩ d (by simp) f2
+      have := repDec_render _ a1
+      rw [a2, f3] at this
+      simpa [Dec.val34] using this)
+    (fun c a v b hc hv => by
+      obtain ⟨d, f1, f2, f3⟩ := foundOrZeroDec_rep hv
+      obtain ⟨e, g1, g2, g3⟩ := foundOrZeroDec_rep hc
+      refine ⟨(e.add d).render, by simp [mergeVal, mergeGen, hpol, hvt, f1, g1], ?_⟩
+      obtain ⟨a1, a2⟩ := Dec.val34_add e d g2 f2
+      have := repDec_render _ a1
+      rw [a2, f3, g3] at this
+      exact this)
+
+theorem repDec_pick {p q : Dec} (hp : p.scale ≤ 34) (hq : q.scale ≤ 34) (c : Bool) (i : Int)
+    (hi : i = if c then p.val34 else q.val34) : RepDec (if c then p else q).render i := by
+  cases c
+  · simp only [Bool.false_eq_true, ↓reduceIte] at hi ⊢; rw [hi]; exact repDec_render q hq
+  · simp only [↓reduceIte] at hi ⊢; rw [hi]; exact repDec_render p hp
+
+theorem cmp_gt_beq (a b : Dec) (ha : a.scale ≤ 34) (hb : b.scale ≤ 34) :
+    (a.cmp b == .gt) = decide (b.val34 < a.val34) := by
+  rw [Bool.eq_iff_iff]
+  simp only [beq_iff_eq, decide_eq_true_eq]
+  exact Dec.cmp_gt a b ha hb
+
+theorem cmp_gt_bne (a b : Dec) (ha : a.scale ≤ 34) (hb : b.scale ≤ 34) :
+    (a.cmp b != .gt) = decide (a.val34 ≤ b.val34) := by
+  rw [Bool.eq_iff_iff]
+  simp only [bne_iff_ne, ne_eq, decide_eq_true_eq, Dec.cmp_gt a b ha hb]
+  omega
+
+/-- `max` over bigdecimal -/
+def refMaxDec (cfg : Cfg) (hpol : cfg.policy = .max) (hvt : cfg.vt = .bigdecimal) :
+    Refine cfg (stdSem cfg) (algCombine combMax) :=
+  refCombineR cfg combMax RepDec DecOperand argDec34 (.max .bigdecimal) (by simp)
+    (semShape_max (by rw [hpol]; simp) _)
+    (fun v hv => by
+      obtain ⟨d, h1, h2⟩ := hv
+      refine ⟨d.render, by simp [stdSem, semMinMax, h1], ?_⟩
+      have := repDec_render d h2
+      simpa [argDec34, h1] using this)
+    (fun c i v hc hv => by
+      obtain ⟨d, h1, h2⟩ := hv
+      obtain ⟨p, p1, p2, p3⟩ := hc
+      refine ⟨(if (d.cmp p == .gt) then d else p).render, ?_, ?_⟩
+      · simp only [stdSem, semMinMax, h1, p1, ↓reduceIte]
+        cases (d.cmp p == .gt) <;> rfl
+      · apply repDec_pick h2 p2
+        rw [cmp_gt_beq d p h2 p2]
+        simp only [argDec34, h1, Option.getD_some, combMax, p3, Int.max_def, decide_eq_true_eq]
+        repeat' split
+        all_goals omega)
+    (fun v b hv => by
+      obtain ⟨d, f1, f2, f3⟩ := foundOrZeroDec_rep hv
+      refine ⟨d.render, by simp [mergeVal, mergeGen, hpol, hvt, f1], ?_⟩
+      rw [← f3]; exact repDec_render d f2)
+    (fun c a v b hc hv => by
+      obtain ⟨d, f1, f2, f3⟩ := foundOrZeroDec_rep hv
+      obtain ⟨e, g1, g2, g3⟩ := foundOrZeroDec_rep hc
+      refine ⟨(if (e.cmp d != .gt) then d else e).render, ?_, ?_⟩
+      · simp only [mergeVal, mergeGen, hpol, hvt, f1, g1, ↓reduceIte]
+      · apply repDec_pick f2 g2
+        rw [cmp_gt_bne e d g2 f2]
+        simp only [combMax, f3, g3, Int.max_def, decide_eq_true_eq]
+        repeat' split
+        all_goals omega)
+
+/-- `min` over bigdecimal -/
+def refMinDec (cfg : Cfg) (hpol : cfg.policy = .min) (hvt : cfg.vt = .bigdecimal) :
+    Refine cfg (stdSem cfg) (algCombine combMin) :=
+  refCombineR cfg combMin RepDec DecOperand argDec34 (.min .bigdecimal) (by simp)
+    (semShape_min (by rw [hpol]; simp) _)
+    (fun v hv => by
+      obtain ⟨d, h1, h2⟩ := hv
+      refine ⟨d.render, by simp [stdSem, semMinMax, h1], ?_⟩
+      have := repDec_render d h2
+      simpa [argDec34, h1] using this)
+    (fun c i v hc hv => by
+      obtain ⟨d, h1, h2⟩ := hv
+      obtain ⟨p, p1, p2, p3⟩ := hc
+      refine ⟨(if (d.cmp p != .gt) then d else p).render, ?_, ?_⟩
+      · simp only [stdSem, semMinMax, h1, p1, Bool.false_eq_true, ↓reduceIte]
+        cases (d.cmp p != .gt) <;> rfl
+      · apply repDec_pick h2 p2
+        rw [cmp_gt_bne d p h2 p2]
+        simp only [argDec34, h1, Option.getD_some, combMin, p3, Int.min_def, decide_eq_true_eq]
+        repeat' split
+        all_goals omega)
+    (fun v b hv => by
+      obtain ⟨d, f1, f2, f3⟩ := foundOrZeroDec_rep hv
+      refine ⟨d.render, by simp [mergeVal, mergeGen, hpol, hvt, f1], ?_⟩
+      rw [← f3]; exact repDec_render d f2)
+    (fun c a v b hc hv => by
+      obtain ⟨d, f1, f2, f3⟩ := foundOrZeroDec_rep hv
+      obtain ⟨e, g1, g2, g3⟩ := foundOrZeroDec_rep hc
+      refine ⟨(if (e.cmp d != .gt) then e else d).render, ?_, ?_⟩
+      · simp only [mergeVal, mergeGen, hpol, hvt, f1, g1]
+        simp
+      · apply repDec_pick g2 f2
+        rw [cmp_gt_bne e d g2 f2]
+        simp only [combMin, f3, g3, Int.min_def, decide_eq_true_eq]
+        repeat' split
+        all_goals omega)
+
 end SV
